@@ -7,6 +7,12 @@ mod cache_engine;
 mod netactors;
 mod props_local;
 mod props_resolve;
+mod props_server;
+mod server_engine;
+
+#[path = "/repo/crates/resolved/src/main.rs"]
+#[allow(dead_code, unused_imports, clippy::all, clippy::pedantic)]
+mod server_main;
 mod resolve_engine;
 mod runner;
 mod universe;
@@ -24,9 +30,10 @@ static C08: props_resolve::C08 = props_resolve::C08;
 static C10: props_resolve::C10 = props_resolve::C10;
 static C06: props_resolve::C06 = props_resolve::C06;
 static C01: props_local::C01 = props_local::C01;
+static C09: props_server::C09 = props_server::C09;
 
 fn properties() -> Vec<&'static dyn Property> {
-    vec![&C05, &C15, &C07, &C18, &C08, &C10, &C06, &C01]
+    vec![&C05, &C15, &C07, &C18, &C08, &C10, &C06, &C01, &C09]
 }
 
 fn find(id: &str) -> &'static dyn Property {
